@@ -24,12 +24,12 @@ CHECKS = {
     'C19': (E1, '4/C19', 'recording write-once store: each executed node saved once with the value consumers received, no markers or failures saved, run outcome unchanged, in every explored schedule'),
     'C06': (E1, '4/C06', 'plain DAGs x execution-mode assignments: at every quiescent state of every d=0 schedule all nodes of the next depth have started'),
     'C07': (E3, '2.9, 4/C07', 'BFS over run histories on one chart object; every transition compared with a fresh chart and with the deep snapshot of everything the chart shares between runs'),
-    'C08': (E1, '4/C08', 'two overlapping runs of one chart on one controlled loop, all interleavings <= d, each run compared with its solo outcome and trace'),
+    'C08': (E1, '4/C08', 'two (thorough: three) overlapping runs of one chart, and of two charts built from the same node classes, on one controlled loop, all interleavings <= d, each run compared with its solo outcome and trace'),
     'C12': (E1, '4/C12', 'retry configuration grid x per-attempt outcome sequences x hosts, all interleavings of the retry timer with sibling completions, virtual-time delays'),
     'C15': (E2, '4/C15', 'built graph equals the relation computed from the spec for every generated program and parameter order'),
     'C16': (E2, '4/C16', 'every single-defect mutation at every position is rejected with the documented error; every valid program builds'),
     'C17': (E1, '4/C17', 'every execution-mode assignment gives the reference outcome in every d=0 schedule; every pool-registry state fails fast; real-pool conformance runs'),
-    'C18': (E3, '2.9, 4/C18', 'BFS over save/load histories on the real filesystem store against a dict model'),
+    'C18': (E3, '2.9, 4/C18', 'BFS over save/load histories on the real filesystem store against a dict model, plus all bounded histories on one store object with in-place mutation of saved / loaded values'),
     'C20': (E2, '4/C20', 'viewer description is a bijection with DAG nodes/edges for every generated program'),
 }
 
